@@ -54,16 +54,19 @@ k = tail.index("## 9. Costs")
 out.append(tail[:k])
 out.append("## 8. Seeded changes: which checks catch which\n\nEach change was written by a fresh sub-agent that was given only the property text and its own scratch worktree, "
            "confirmed by me in a scratch worktree (`seeded/confirm.sh`: compiles, 17/17 ctest entries pass, demonstration fails with the change and passes without), "
-           "then applied to /repo, checked (`seeded/runmut.sh`) and undone. Generated from `seeded/*/meta.json`.\n\n| change | caught | by what | history |\n|---|---|---|---|\n")
+           "then applied to /repo, checked (`seeded/runmut.sh`) and undone. Generated from `seeded/*/meta.json`.\n")
+rows = ["| change | caught | by what | history |", "|---|---|---|---|"]
 for d in sorted(glob.glob(os.path.join(V, "seeded", "C*-m*"))):
     mp = os.path.join(d, "meta.json")
     if not os.path.exists(mp):
         continue
     m = json.load(open(mp))
     cr = m.get("check_result", {})
-    what = " ".join(m.get("what_it_does", "").split())[:170]
-    out.append("| **%s** %s | %s | %s | %s |\n" % (m["id"], what.replace("|", "/"), "yes" if cr.get("caught") else "**NO**", " ".join(str(cr.get("how", "")).split()).replace("|", "/")[:330],
+    what = re.sub(r"[=\-]{4,}", " ", " ".join(m.get("what_it_does", "").split()))
+    what = " ".join(what.split())[:200]
+    rows.append("| **%s** %s | %s | %s | %s |" % (m["id"], what.replace("|", "/"), "yes" if cr.get("caught") else "**NO**", " ".join(str(cr.get("how", "")).split()).replace("|", "/")[:330],
                                                 " ".join(str(cr.get("history", "")).split()).replace("|", "/")[:330]))
+out.append("\n".join(rows) + "\n")
 out.append("\n" + open(os.path.join(V, "docs", "design_seeded_notes.md")).read() if os.path.exists(os.path.join(V, "docs", "design_seeded_notes.md")) else "\n")
 out.append("\n---------------------------------------------------------------------------------------\n\n" + tail[k:])
 open(os.path.join(V, "DESIGN.md"), "w").write("\n".join(out))
